@@ -231,6 +231,10 @@ func unmarshalChannel(s interface{}) (Channel, error) {
 		}
 	}
 
+	if address == nil {
+		return nil, errors.Errorf("Channel needs an 'address' (a string such as tcp://127.0.0.1:22): %+v", stuff)
+	}
+
 	var channel Channel
 	switch address.Scheme {
 	case "socks":
